@@ -154,6 +154,12 @@ func cmdCheck(args []string) int {
 		return 2
 	}
 	loadS := time.Since(tl).Seconds()
+	for _, d := range ld.Dropped {
+		if i := strings.Index(d, ": "); i > 0 {
+			droppedHarness[d[:i]] = true
+		}
+		fmt.Fprintf(os.Stderr, "NOTE property=%s: harness file left out, it does not compile against this tree: %s\n", id, oneLine(d))
+	}
 
 	findings := loadFindings(vdir)
 	openFor := func(entry string) []Finding {
@@ -578,6 +584,9 @@ func writeReplay(path, tag string, inputs map[string]uint64, params map[string]i
 }
 
 // nativeReplay builds the real package with the harness overlay and runs the listed replays.
+// droppedHarness: harness files (virtual paths) the loader left out because they no longer compile.
+var droppedHarness = map[string]bool{}
+
 func nativeReplay(vdir, repo, pkg, id string, funcs map[string]bool, list []string) string {
 	var names []string
 	for f := range funcs {
@@ -645,7 +654,11 @@ func TestVerifReplay(t *testing.T) {
 	}
 	files, _ := filepath.Glob(filepath.Join(vdir, "harness", pkg, "*.go"))
 	for _, f := range files {
-		repl[filepath.Join(repo, pkg, "zz_verif_"+filepath.Base(f))] = f
+		virt := filepath.Join(repo, pkg, "zz_verif_"+filepath.Base(f))
+		if droppedHarness[virt] {
+			continue // does not compile against this tree (see engine.Load)
+		}
+		repl[virt] = f
 	}
 	ovb, _ := json.Marshal(map[string]interface{}{"Replace": repl})
 	ovFile := filepath.Join(dir, fmt.Sprintf("%s_%s_overlay.json", id, strings.ReplaceAll(pkg, "/", "_")))
